@@ -26,6 +26,7 @@ type Control struct {
 	ExpectRule  string `json:"expect_rule,omitempty"`
 	Description string `json:"description"`
 	Edits       []Edit `json:"edits"`
+	Patch       string `json:"patch,omitempty"` // unified diff, path relative to the verif dir (seeded/<id>/patch.diff)
 	Origin      string `json:"origin,omitempty"` // e.g. "seeded/<id>" when derived from an independently written change
 }
 
@@ -154,7 +155,7 @@ func tail(s string) string {
 	return s
 }
 
-func runControl(repo string, c Control, base map[string]bool) ControlResult {
+func runControl(repo, verifDir string, c Control, base map[string]bool) ControlResult {
 	res := ControlResult{Name: c.Name, Kind: c.Kind, Expect: c.ExpectRule}
 	tmp, err := os.MkdirTemp("", "gpcheck-ctl-")
 	if err != nil {
@@ -167,6 +168,14 @@ func runControl(repo string, c Control, base map[string]bool) ControlResult {
 		return res
 	}
 	ok, err := applyEdits(tmp, c.Edits)
+	if ok && err == nil && c.Patch != "" {
+		cmd := exec.Command("git", "apply", "--whitespace=nowarn", filepath.Join(verifDir, c.Patch))
+		cmd.Dir = tmp
+		if out, perr := cmd.CombinedOutput(); perr != nil {
+			ok = false
+			_ = out
+		}
+	}
 	if err != nil {
 		res.Outcome, res.Detail = "error", err.Error()
 		return res
@@ -235,7 +244,7 @@ func selfTest(repo, verif, property string, baseFailing []an.Obligation, only st
 			defer wg.Done()
 			sem <- struct{}{}
 			defer func() { <-sem }()
-			results[i] = runControl(repo, c, base)
+			results[i] = runControl(repo, verif, c, base)
 		}(i, c)
 	}
 	wg.Wait()
